@@ -96,13 +96,26 @@ inductive Err where
   | invalidInput | invalidField | notSingleton | notPatchable | invalidEnum | invalidUnsignedInt | notImplemented | evalError
 deriving DecidableEq, Repr
 
+/-- (there is no crash outcome: every path of the modelled code ends in `nil` or an error; a crash
+    of the real code shows up as a difference in the correspondence check) -/
 inductive Outcome where
   | ok
   | err (e : Err)
-  | panic
 deriving DecidableEq, Repr
 
-/-- what the code learns about the supplied value relative to the slot it is meant for -/
+/-- what the code learns about a destination type T (the located field's element type) for the
+    supplied value -/
+structure DestFacts where
+  wrapper : Bool        -- T has exactly one oneof and it is not `reference` (choice / ContainedResource)
+  member : Bool         -- … and one of its members has the value's type
+  isEnum : Bool         -- T.value is an enum
+  kebabOk : Bool        -- strcase.ToKebab(str) == str
+  enumFound : Bool      -- the SCREAMING_SNAKE name is a value of the enum
+  refId : Bool          -- T is ReferenceId
+  intKind : Nat         -- T.value: 1 int32, 2 uint32, 3 another kind, 0 no value field
+deriving DecidableEq, Repr, Inhabited
+
+/-- the supplied value -/
 structure ValFacts where
   isNil : Bool
   slot : Slot               -- the value's identity (stored as is when no normalisation applies)
@@ -110,30 +123,27 @@ structure ValFacts where
   stringable : Bool
   intable : Bool
   negative : Bool           -- intable and < 0
-  -- facts about the destination type T (the field's element type)
-  destWrapper : Bool        -- T has exactly one oneof and it is not `reference` (choice / ContainedResource)
-  destMember : Bool         -- … and one of its members has the value's type
-  destEnum : Bool           -- T.value is an enum
-  kebabOk : Bool            -- strcase.ToKebab(str) == str
-  enumFound : Bool          -- the SCREAMING_SNAKE name is a value of the enum
-  destRefId : Bool          -- T is ReferenceId
-  destIntKind : Nat         -- T.value: 1 int32, 2 uint32, 3 another kind, 0 no value field
   fresh : Slot              -- identity of the container / normalised message the code would create
+  dest : List (String × DestFacts)   -- per destination type occurring in the described messages
 deriving DecidableEq, Repr
+
+def ValFacts.destOf (v : ValFacts) (t : String) : DestFacts :=
+  ((v.dest.find? (fun p => p.1 == t)).map (·.2)).getD default
 
 /-- `normalizeAdd` + the descriptor check (or `newSetOneof` for wrappers): the slot to store -/
 def prepare (v : ValFacts) (destTyp : String) : Except Outcome Slot :=
-  if v.destWrapper then
-    (if v.destMember then .ok v.fresh else .error (.err .invalidInput))
+  let d := v.destOf destTyp
+  if d.wrapper then
+    (if d.member then .ok v.fresh else .error (.err .invalidInput))
   else
     let norm : Except Outcome (Option Slot × String) :=
       if v.stringable then
-        if v.destEnum then
-          (if !v.kebabOk then .error (.err .invalidEnum) else if !v.enumFound then .error (.err .invalidEnum) else .ok (some v.fresh, destTyp))
-        else if v.destRefId then .ok (some v.fresh, destTyp)
+        if d.isEnum then
+          (if !d.kebabOk then .error (.err .invalidEnum) else if !d.enumFound then .error (.err .invalidEnum) else .ok (some v.fresh, destTyp))
+        else if d.refId then .ok (some v.fresh, destTyp)
         else .ok (none, v.typ)
       else if v.intable then
-        match v.destIntKind with
+        match d.intKind with
         | 0 => .ok (none, v.typ)
         | 1 => .ok (some v.fresh, destTyp)
         | 2 => if v.negative then .error (.err .invalidUnsignedInt) else .ok (some v.fresh, destTyp)
